@@ -13,7 +13,7 @@ G = "runtime monitoring, Engine G: "
 T = "runtime monitoring, Engine T: "
 CHECKS = {
  "C01": ("sched+gen", S+"start/end stamps from one atomic clock inside harness job bodies, checked after quiescence against the scenario's dependency lists, with seeded perturbation at verif hook points, plus an online shadow scheduler fed by the loop's hook events (a job is handed to a worker once, only when every dependency has a result); " + G + "stub call log vs. the abstract program's dependencies (providers, predicates, element calls of End hooks) on freshly generated code",
-         "Held on every observed execution: a dependent never started before its dependency ended ok, no job/function ran twice; scheduler scenarios (DAGs with duplicate deps, late enqueue, one job with more than 65536 unfinished dependencies, both modes, N=1..64) and generated flows/parallels (also two directives per file, nested and simultaneous executions, values of unnamed struct/slice/func/interface types).",
+         "Held on every observed execution: a dependent never started before its dependency ended ok, no job/function ran twice; scheduler scenarios (DAGs with duplicate deps, late enqueue, one job with more than 65536 unfinished dependencies, both modes, N=1..64) and generated flows/parallels (also two directives per file, nested and simultaneous executions, values of unnamed struct/slice/func/interface types, aliases, and same-named types of two same-named packages).",
          "Trusted: harness bodies/stubs and their clock; the Go runtime. Interleavings reached = OS scheduling + hook perturbation + stub delays.", "3/C01"),
  "C02": ("gen", G+"provenance-hash tokens through freshly generated flow code, compared call by call (arguments, multiplicity, Results) with a reference interpreter written from the statement; each abstract flow printed in 3 listing/option orders, a third of the multi-result flows with two cff.Results options; 4/8/32 simultaneous executions of the same directive from as many goroutines, each judged on its own",
          "Held on every observed execution of every generated flow (all spellings/value-type kinds of the grammar, concurrency default..64, delays).",
@@ -22,21 +22,21 @@ CHECKS = {
          "In-flight high-water mark <= limit in every execution; scheduler goroutines <= N+2 with up to 10^5 jobs; N-party barrier completes after 0/1/N/3N Goexit jobs.",
          "Census is one sample per wide scenario, made decisive by holding every running body on the gate. Generated level: wide programs (6..25 independent functions, mostly without cff.Concurrency) held until the limit is saturated plus 3 ms.", "3/C03"),
  "C04": ("gen", G+"every execution runs under recover() in a child process whose death is attributed to its last case; returned error inspected with errors.As(*cff.PanicError) and Value compared with the value observed at the panicking stub",
-         "No panic escaped and no child died over all executions in which stubs panicked (6 kinds of values, every function role); returned errors matched observed failures.",
+         "No panic escaped and no child died over all executions in which stubs panicked (10 kinds of values incl. non-comparable ones and *cff.PanicError, every function role; base and modifier mode); returned errors matched observed failures.",
          "panic(nil) excluded (statement says non-nil).", "3/C04"),
  "C05": ("sched+gen", S+"watchdog + stuck-state detector (three identical all-blocked goroutine dumps with a static harness clock) over scenario stress with hook perturbation; " + G + "same detector around every generated-code execution incl. fault, panic and cancel scenarios",
          "Every Enqueue/Wait/Flow/Parallel returned in all explored scenarios, also when tasks or the state emitter kill their goroutine (runtime.Goexit). A hang needing an interleaving never produced is missed.",
          "Liveness restated as 'no stuck state while a call is outstanding'; inconclusive watchdog expiries are reported, not failed.", "3/C05"),
- "C06": ("sched+gen", S+"goroutine census after quiescence (NumGoroutine vs. baseline, then runtime.Stack filtered on goroutines created by the scheduler, stable over three dumps); " + G + "same census after every generated-code execution",
+ "C06": ("sched+gen", S+"goroutine census after quiescence (NumGoroutine vs. baseline, then runtime.Stack filtered on goroutines created by the scheduler, stable over three dumps); " + G + "same census after every generated-code execution, a quarter of them with a context.Context implemented outside the standard library (goroutines the context package runs for contexts derived from it count as started for the directive)",
          "After every execution (success, fail-fast, ContinueOnError, cancelled, prompt return with a task still running) the process returned to its goroutine baseline. Found F1 on the pinned tree (fixed).",
          "Leak verdict needs the same blocked scheduler goroutines in three dumps; anything else is inconclusive.", "3/C06"),
  "C07": ("sched+gen", S+"returned error identity vs. unique per-job error values (also bare context sentinels returned by jobs and jobs submitted with an already done context of their own while the scenario's context is live), invocation log, transitive closure from the scenario; " + G + "reference interpreter: failing sets of tasks (errors, panics), returned error matched against observed failing calls, Results sentinels, must-not-call sets",
-         "Held on observed fail-fast executions at scheduler and generated-code level.",
+         "Held on observed fail-fast executions at scheduler and generated-code level (base and modifier mode; programs with helper packages are generated twice, first against an earlier version of the helper package).",
          "Goexit scenarios excluded from error-identity clauses.", "3/C07"),
  "C08": ("sched+gen", S+"multierr.Errors(returned error) compared as a multiset of identities with the failed jobs, invocation log vs. transitive closure; " + G + "Parallel programs with cff.ContinueOnError(expr): every function/element called exactly once, bijection between error entries and failing calls, expr=false behaves fail-fast",
          "Held on observed ContinueOnError executions incl. late enqueue after a dependency failed, chains of invalidation, task errors with a permissive Is method or unwrapping to context errors, bare context sentinels as task errors, and per-job contexts (a job whose own context is done is skipped, nothing else is). Found F17 (fixed).",
          "With cancellation only the weaker 'context errors or distinct failed tasks' clause is judged.", "3/C08"),
- "C09": ("sched+gen", S+"must-not-start sets derived structurally (depends on cancelling job / submitted after cancel() returned / all workers held until after cancel()), prompt return via stuck-state detector, context marker; " + G + "cancel before the call / inside a task / by helper / prompt-return gate on generated code",
+ "C09": ("sched+gen", S+"must-not-start sets derived structurally (depends on cancelling job / submitted after cancel() returned / all workers held until after cancel()), prompt return via stuck-state detector, context marker; " + G + "cancel before the call / inside a task or predicate / by helper / prompt-return gate on generated code; contexts with deadlines, cancellation causes, and of foreign implementation",
          "Held on observed executions; the must-not-start set includes jobs whose worker was held, before looking at the context, until cancel() had returned; other ready jobs are not judged (the check-then-run window is legitimate).",
          "No timing window is used as a verdict.", "3/C09"),
  "C10": ("gen", G+"exactly-once multiset of (index,element)/(key,value) tokens per collection, End hook start stamp vs. end stamps of all element calls, End hook never after a failed element",
@@ -49,7 +49,7 @@ CHECKS = {
          "No race report over the observed executions; the detector generalises each execution by happens-before.",
          "Harness is written to add no happens-before edges of its own in quiet mode.", "3/C12"),
  "C13": ("tool", T+"the cff binary built from the working tree run as a child process per package over Engine G programs, static multi-directive files and hazard templates in base/source-map x auto-instrument; oracle: no Go panic, positioned diagnostic on failure, outputs parse, package type-checks without the tag, AST scan for residual directives",
-         "Held on all explored inputs except the recorded known findings F4, F5, F10, F11 (identifier/package shadowing and nested directives); F2, F3, F6, F7, F14, F15, F16, F20, F21 were found and fixed.",
+         "Held on all explored inputs (two configurations regenerate over longer stale outputs before type-checking) except the recorded known findings F4, F5, F10, F11 (identifier/package shadowing and nested directives); F2, F3, F6, F7, F14, F15, F16, F20, F21 were found and fixed.",
          "Known findings are keyed by (spelling feature, compiler message); a different failure is still reported.", "3/C13"),
  "C14": ("tool", T+"random well-formed flows and every applicable single-defect mutation (16 kinds, incl. dependency rings that lead to no Results value and no Invoke task), each its own package; Slice/Map element/key/value type pairs over an 11-type lattice with the expected verdict computed by go/types.AssignableTo; observed: exit status, diagnostic naming the file, presence of *_gen.go",
          "Every explored ill-formed directive rejected, every well-formed one accepted - also in in-package test files and in files with two directives. Found F8 and F13 (fixed).",
@@ -57,16 +57,16 @@ CHECKS = {
  "C15": ("gen", G+"every argument expression of generated programs wrapped in a logging identity function (site, goroutine id, stamp): exactly once, in source order, on the caller's goroutine, before the first stub call; 'bare' programs pass every argument as a plain local variable that is overwritten with a recognisable replacement when the first user function is entered (any replacement seen later = late evaluation), and in half of them every 2nd..4th argument is a call that overwrites the argument variables written before it (a non-call argument read out of source order sees the replacement); user variables named like generated identifiers carry the Params values",
          "Held on every observed execution. Found F9 and (with //line comments between the arguments) F16 (fixed).",
          "cff.Invoke's argument must be constant and is not wrapped.", "3/C15"),
- "C16": ("tool", T+"(b) build constraints over {cff,a,b} (exhaustive to a nesting depth, sampled deeper; go:build, +build, both) with truth tables via go/build/constraint for all 8 assignments; (a) structural AST comparison of source and output with directive sites masked; (c) SHA-256 snapshot of the module before/after with random -file selections",
+ "C16": ("tool", T+"(b) build constraints over {cff,a,b} (exhaustive to a nesting depth, sampled deeper; go:build, +build, both) with truth tables via go/build/constraint for all 8 assignments; (a) structural AST comparison of source and output with directive sites masked; (c) SHA-256 snapshot of the module before/after with random -file / -file=IN=OUT selections in base and source-map mode, every invocation repeated with the outputs in place and with a longer stale file at every output path, one ./... invocation over a tree with testdata, nested module, _/. directories and a symlinked package",
          "Held on every explored file.",
          "go.mod/go.sum are maintained by the go command the loader runs and are excluded from the footprint.", "3/C16"),
- "C17": ("tool", T+"byte comparison of every output across fresh cff processes (base and source-map), against -file singleton/subset runs, and after adding in-package and external test files",
+ "C17": ("tool", T+"byte comparison of every output across fresh cff processes (base and source-map), against -file singleton/subset runs, after adding in-package and external test files, and when regenerating over outputs in place or over longer stale outputs",
          "All outputs byte-identical over the explored corpus: across processes, -file selections, package variants, and a package processed alone vs. together with others.",
          "File order inside a package is fixed by go list.", "3/C17"),
  "C18": ("gen+emit", G+"recording cff.Emitter implementations (1..3 WithEmitter options, nested EmitterStack) on instrumented generated programs; Engine E: cff.EmitterStack/NopEmitter driven at their API over forests of shared, nested and repeatedly extended stacks, per emitter and per stack exact event sequence and payload identity; per execution and per invocation event counts, payload identity, ordering, and equality of what every stacked emitter received",
          "Held on every observed execution.",
          "Under -auto-instrument only bounds are judged (the statement does not fix which tasks cff instruments or their names).", "3/C18"),
- "C19": ("sched+gen", S+"recording scheduler.Emitter at StateFlushFrequency=1ns, every report checked against the stated equations and harness-side submission counters, and compared field by field with an online shadow scheduler fed by the loop's hook events; " + G + "cff.SchedulerEmitter through generated code at the default flush interval: a function is held until the first report, which lingers in EmitScheduler; counts, Concurrency = the directive's limit, no report in delivery after a nil return",
+ "C19": ("sched+gen", S+"recording scheduler.Emitter at StateFlushFrequency=1ns, every report checked against the stated equations and harness-side submission counters, and compared field by field with an online shadow scheduler fed by the loop's hook events; " + G + "cff.SchedulerEmitter through generated code at the default flush interval: a function is held until the first report, which lingers in EmitScheduler; counts, Concurrency = the directive's limit (also when the limit is a constant that differs between the generator's and the build's configuration), no report in delivery after a nil return",
          "Every one of the (10^5..10^7) reports per run satisfied the stated relations; found F1 (executing > Concurrency) on the pinned tree, fixed.",
          "Counters read inside Emit are conservative upper bounds; the shadow model is exact because loop events and Emit happen on the loop goroutine.", "3/C19"),
 }
